@@ -3,7 +3,9 @@
 package collection
 
 import (
+	"bytes"
 	"encoding/json"
+	"runtime"
 	"testing"
 	"time"
 
@@ -11,7 +13,20 @@ import (
 	"github.com/gotid/god/lib/timex"
 )
 
-// ops: [0,v] Add(v) | [1] Reduce | [2,dt] advance the virtual clock by dt ns
+// verifRWAddParked: some goroutine is blocked in RollingWindow.Add on the window's lock (stack inspection).
+func verifRWAddParked() bool {
+	buf := make([]byte, 1<<18)
+	buf = buf[:runtime.Stack(buf, true)]
+	for _, g := range bytes.Split(buf, []byte("\n\n")) {
+		if bytes.Contains(g, []byte("RollingWindow).Add")) && bytes.Contains(g, []byte("sync.(*RWMutex).Lock")) {
+			return true
+		}
+	}
+	return false
+}
+
+// ops: [0,v] Add(v) | [1] Reduce | [2,dt] advance the virtual clock by dt ns | [3,dt,v] gated Reduce overlapped by
+// (advance dt; Add(v)) from another goroutine
 type verifRWCase struct {
 	Size     int       `json:"size"`
 	Interval int64     `json:"interval"`
@@ -41,6 +56,7 @@ func TestVerifDriverRW(t *testing.T) {
 			return map[string]any{"panic_at": 0, "reduces": reduces}
 		}
 		panicAt := -1
+		conc := []int64{}
 		for i, op := range c.Ops {
 			p, _ := verifdrv.Catch(func() {
 				switch op[0] {
@@ -54,6 +70,52 @@ func TestVerifDriverRW(t *testing.T) {
 					reduces = append(reduces, row)
 				case 2:
 					timex.VerifAdvance(time.Duration(op[1]))
+				case 3:
+					// [3,dt,v]: a Reduce whose callback holds on the 2nd bucket it is handed while the clock moves on
+					// by dt and another goroutine calls Add(v): the Add must wait for the Reduce (conc[i] = 1) and
+					// the Reduce must hand over the window as it was when it started
+					row := [][2]int64{}
+					calls := 0
+					gate, entered, done := make(chan struct{}), make(chan struct{}), make(chan struct{})
+					go func() {
+						defer close(done)
+						rw.Reduce(func(b *Bucket) {
+							calls++
+							if calls == 2 {
+								close(entered)
+								<-gate
+							}
+							row = append(row, [2]int64{int64(b.Sum), b.Count})
+						})
+					}()
+					waited := int64(1)
+					select {
+					case <-entered:
+						timex.VerifAdvance(time.Duration(op[1]))
+						addDone := make(chan struct{})
+						go func() { rw.Add(float64(op[2])); close(addDone) }()
+					wait:
+						for spin := 0; spin < 4000; spin++ {
+							select {
+							case <-addDone:
+								waited = 0 // the Add went through while the Reduce was still inside its callback
+								break wait
+							default:
+							}
+							if verifRWAddParked() {
+								break wait
+							}
+							time.Sleep(50 * time.Microsecond)
+						}
+						close(gate)
+						<-done
+						<-addDone
+					case <-done: // fewer than two buckets handed over: nothing to overlap with
+						timex.VerifAdvance(time.Duration(op[1]))
+						rw.Add(float64(op[2]))
+					}
+					conc = append(conc, waited)
+					reduces = append(reduces, row)
 				}
 			})
 			if p {
@@ -65,7 +127,7 @@ func TestVerifDriverRW(t *testing.T) {
 		for _, b := range rw.win.buckets {
 			ring = append(ring, [2]int64{int64(b.Sum), b.Count})
 		}
-		return map[string]any{"panic_at": panicAt, "reduces": reduces, "offset": rw.offset,
+		return map[string]any{"panic_at": panicAt, "reduces": reduces, "conc": conc, "offset": rw.offset,
 			"last": int64(rw.lastTime - time.Hour), "ring": ring}
 	})
 }
